@@ -75,3 +75,12 @@ PROPS['C17'] = dict(
     assumptions=[],
     explanation="",
 )
+
+from contracts import hwdiags
+PROPS['C20'] = dict(
+    units=list(hwdiags.UNITS),
+    level='proof',
+    min_obligations=60,
+    assumptions=[],
+    explanation="",
+)
